@@ -151,7 +151,7 @@ class Check:
             violations=nviol,
         )
         os.makedirs(os.path.join(VERIF, 'evidence'), exist_ok=True)
-        p = os.path.join(VERIF, 'evidence', f'{self.prop}.json')
+        p = os.path.join(VERIF, 'evidence', f'{self.prop}{os.environ.get("MZK_EVIDENCE_SUFFIX", "")}.json')
         with open(p + '.tmp', 'w') as fh:
             json.dump(ev, fh, indent=1, default=str)
         os.rename(p + '.tmp', p)
